@@ -52,22 +52,34 @@ DAG = {
 HIST = {
     ('C02', 'quick'): [(4, 2, 'Mixed4', 'NoDef', False, 5, False),
                        (4, 1, 'Decl4', 'NoDef', False, 6, False),
-                       (3, 2, 'Mixed3', 'NoDef', True, 5, False)],
+                       (3, 2, 'Mixed3', 'NoDef', True, 5, False),
+                       # equal-named twin interfaces (1 and 2)
+                       (4, 1, 'AllIface4', 'NoDef', False, 5, False, 'twins')],
     ('C02', 'thorough'): [(4, 2, 'Mixed4', 'NoDef', False, 7, False),
                           (4, 2, 'Mixed4', 'NoDef', True, 6, False),
                           (4, 2, 'Decl4', 'NoDef', False, 6, False),
                           (5, 1, 'Decl5', 'NoDef', False, 7, False),
-                          (4, 2, 'AllIface4', 'NoDef', False, 6, False)],
+                          (4, 2, 'AllIface4', 'NoDef', False, 6, False),
+                          (4, 2, 'AllIface4', 'NoDef', False, 5, False,
+                           'twins'),
+                          (5, 1, 'AllIface5', 'NoDef', False, 6, False,
+                           'twins')],
     ('C03', 'quick'): [(4, 2, 'AllIface4', 'NoDef', False, 4, False),
                        (3, 3, 'AllIface3', 'NoDef', True, 5, False)],
     ('C03', 'thorough'): [(4, 3, 'AllIface4', 'NoDef', False, 6, False),
                           (4, 2, 'AllIface4', 'NoDef', True, 6, False),
                           (4, 2, 'Mixed4', 'NoDef', False, 6, False)],
     ('C15', 'quick'): [(3, 2, 'AllIface3', 'Def12', False, 6, True),
-                       (4, 2, 'AllIface4', 'Def12', False, 4, True)],
+                       (4, 2, 'AllIface4', 'Def12', False, 4, True),
+                       (4, 1, 'AllIface4', 'DefBoth', False, 6, True,
+                        'twins')],
     ('C15', 'thorough'): [(3, 2, 'AllIface3', 'AnyDef', False, 8, True),
                           (4, 2, 'AllIface4', 'Def12', False, 6, True),
-                          (3, 2, 'AllIface3', 'Def12', True, 7, True)],
+                          (3, 2, 'AllIface3', 'Def12', True, 7, True),
+                          (4, 1, 'AllIface4', 'DefBoth', False, 7, True,
+                           'twins'),
+                          (4, 2, 'AllIface4', 'DefBoth', False, 5, True,
+                           'twins')],
 }
 SIM = {  # (N, MaxB, IsIface, Def, RootExplicit, depth, WithGet, num)
     'quick': (5, 2, 'Mixed5', 'Def12', False, 15, True, 400),
@@ -88,8 +100,20 @@ def nontrivial(case_obs):
     return any(len(v) >= 3 for v in vals)
 
 
+def twins_shared(case, pair, N):
+    """did the two twins ever list the same direct base (not Interface)?"""
+    bases = {n: [] for n in range(0, N + 1)}
+    for st in case['steps']:
+        a = st['act']
+        if a['op'] == 'SetBases':
+            bases[a['n']] = list(a['nb'])
+            if set(bases[pair[0]]) & set(bases[pair[1]]) - {0}:
+                return True
+    return False
+
+
 def replay(build, v, pid, mode, N, isiface, rootx, cases, budget,
-           rootless=False):
+           rootless=False, twins=(), known=None):
     if not cases:
         return
     rnd = random.Random(seed())
@@ -102,7 +126,8 @@ def replay(build, v, pid, mode, N, isiface, rootx, cases, budget,
             jobs.append((impl, {'mode': mode, 'prop': pid, 'N': N,
                                 'isiface': ISIFACE[isiface],
                                 'root_explicit': rootx, 'cases': sh,
-                                'valid_only': rootless}))
+                                'valid_only': rootless,
+                                'twins': list(twins)}))
     for (impl, job), r in zip(jobs, run_children(build,
                                                  'replay_specgraph.py',
                                                  jobs)):
@@ -118,6 +143,8 @@ def replay(build, v, pid, mode, N, isiface, rootx, cases, budget,
             sig = '%s %s %s expected=%s got=%s ctx=%s' % (
                 pid, m['impl'], m['what'], json.dumps(m['expected']),
                 json.dumps(m['got']), json.dumps(m['ctx'], sort_keys=True))
+            if known:
+                sig = '[%s] %s' % (known, sig)
             v.violation(sig, m, one_case('replay_specgraph.py', impl, job,
                                          m))
     v.cov['traces_validated_against_impl'] += 2 * len(cases)
@@ -125,10 +152,20 @@ def replay(build, v, pid, mode, N, isiface, rootx, cases, budget,
 
 
 def run_sim(pid, tier, v, build):
-    """random long behaviours over a larger universe"""
-    if True:
-        (N, maxb, isif, defc, rootx, depth, wg, num) = SIM[tier]
+    """random long behaviours over a larger universe (transition coverage
+    from shortest prefixes does not compose histories; these do), with and
+    without equal-named twin interfaces"""
+    (N, maxb, isif, defc, rootx, depth, wg, num) = SIM[tier]
+    plans = [(N, maxb, isif, defc, rootx, depth, wg, num, [])]
+    if pid in ('C02', 'C15', 'C10'):
+        plans.append((4, 1, 'AllIface4', 'DefBoth', False, 14, True,
+                      num, [[1, 2]]))
+        plans.append((5, 2, 'AllIface5', 'DefBoth', False, 16, True,
+                      num // 2, [[1, 2]]))
+    for k, (N, maxb, isif, defc, rootx, depth, wg, num, twins) in \
+            enumerate(plans):
         cfg = make_cfg(build.dir, 'sim', {
+            'Twins': '<-Twins12' if twins else '<-NoTwins',
             'N': N, 'MaxB': maxb, 'MaxDepth': depth + 1,
             'IsIface': '<-' + isif, 'DefChoices': '<-' + defc,
             'WithGet': tla_bool(wg), 'RootExplicit': tla_bool(rootx),
@@ -136,9 +173,10 @@ def run_sim(pid, tier, v, build):
             invariants=INV[pid] + ['DumpObs'], view='View',
             action_constraint='Emit')
         res = run_tlc('MC_SpecGraph_hist', cfg, simulate=num, depth=depth,
-                      seed_=seed(), scratch=build.dir)
+                      seed_=seed() + k, scratch=build.dir)
         join_obs(res)
-        name = 'simulate N=%d depth=%d num=%d' % (N, depth, num)
+        name = 'simulate N=%d depth=%d num=%d%s' % (
+            N, depth, num, ' twins(1,2)' if twins else '')
         v.add_tlc(res, name)
         if res.violated:
             raise MachineryError('model-level violation of %s in %s:\n%s' % (
@@ -148,10 +186,41 @@ def run_sim(pid, tier, v, build):
             steps = [{'act': x['act'], 'obs': x['obs'],
                       'bases': x['to']['bases']} for x in beh]
             cases.append({'defA': beh[0]['from']['defA'], 'steps': steps})
-        replay(build, v, pid, 'hist', N, isif, rootx, cases, 10 ** 9)
+        if twins:
+            # behaviours are cut where the twins first share a base: the
+            # prefix is an ordinary case, the whole is attributed to the
+            # known finding (DESIGN.md 5.9)
+            shared, clean = [], []
+            for c in cases:
+                cut = first_shared(c, twins[0], N)
+                if cut is None:
+                    clean.append(c)
+                else:
+                    shared.append(c)
+                    if cut > 0:
+                        clean.append({'defA': c['defA'],
+                                      'steps': c['steps'][:cut]})
+            replay(build, v, pid, 'hist', N, isif, rootx, shared, 10 ** 9,
+                   twins=twins, known='twins-shared-a-base')
+            cases = clean
+        replay(build, v, pid, 'hist', N, isif, rootx, cases, 10 ** 9,
+               twins=twins)
         if cases:
             v.sample({'config': name,
                       'behaviour': [s['act'] for s in cases[0]['steps']]})
+
+
+def first_shared(case, pair, N):
+    """index of the first step after which the twins list a common direct
+    base (None: never)"""
+    bases = {n: [] for n in range(0, N + 1)}
+    for i, st in enumerate(case['steps']):
+        a = st['act']
+        if a['op'] == 'SetBases':
+            bases[a['n']] = list(a['nb'])
+            if set(bases[pair[0]]) & set(bases[pair[1]]) - {0}:
+                return i
+    return None
 
 
 def main(pid, tier):
@@ -202,8 +271,11 @@ def main(pid, tier):
                 exhaustive = False
             v.sample({'config': name, 'case': {k: cases[-1][k] for k in
                                                ('bases', 'sro', 'defA')}})
-        for (N, maxb, isif, defc, rootx, depth, wg) in HIST[(pid, tier)]:
+        for hspec in HIST[(pid, tier)]:
+            (N, maxb, isif, defc, rootx, depth, wg) = hspec[:7]
+            twins = [[1, 2]] if len(hspec) > 7 else []
             cfg = make_cfg(build.dir, 'hist', {
+                'Twins': '<-Twins12' if twins else '<-NoTwins',
                 'N': N, 'MaxB': maxb, 'MaxDepth': depth,
                 'IsIface': '<-' + isif, 'DefChoices': '<-' + defc,
                 'WithGet': tla_bool(wg), 'RootExplicit': tla_bool(rootx),
@@ -213,8 +285,9 @@ def main(pid, tier):
             res = run_tlc('MC_SpecGraph_hist', cfg, scratch=build.dir,
                           workers=1 if tier == 'quick' else None)
             join_obs(res)
-            name = 'hist N=%d MaxB=%d %s %s root_explicit=%s depth=%d' % (
-                N, maxb, isif, defc, rootx, depth)
+            name = 'hist N=%d MaxB=%d %s %s root_explicit=%s depth=%d%s' % (
+                N, maxb, isif, defc, rootx, depth,
+                ' twins(1,2)' if twins else '')
             v.add_tlc(res, name)
             if res.violated:
                 raise MachineryError(
@@ -237,8 +310,19 @@ def main(pid, tier):
                     cases.append({'defA': e['from']['defA'], 'steps': steps})
                     if nontrivial(e['obs']):
                         v.cov['distinct_nontrivial'] += 1
+            if twins:
+                # KNOWN FINDING (DESIGN.md 5.9): two equal-named dependents
+                # of one specification share a single entry of its weak
+                # dependents table.  Behaviours in which the twins ever had a
+                # common direct base are replayed separately and their
+                # divergences attributed to that finding; all others are
+                # ordinary cases.
+                shared = [c for c in cases if twins_shared(c, twins[0], N)]
+                cases = [c for c in cases if not twins_shared(c, twins[0], N)]
+                replay(build, v, pid, 'hist', N, isif, rootx, shared,
+                       budget, twins=twins, known='twins-shared-a-base')
             done = replay(build, v, pid, 'hist', N, isif, rootx, cases,
-                          budget * 3)
+                          budget * 3, twins=twins)
             if len(done) < len(cases):
                 exhaustive = False
             v.sample({'config': name,
